@@ -1098,7 +1098,25 @@ func c11SubJSON(q c11Req) string {
 }
 
 // the key the driver expects for the given iteration orders (driver's own copy of the layout; the digests go into tab)
-func c11ProposeKey(c c11Conf, q c11Req, ho, vo []string, tab *c11Sha) string {
+// the key with fixes/C11-F6.diff applied as well (the digests of both layouts go into the table)
+func c11ProposeKey(c c11Conf, q c11Req, ho, vo []string, tab *c11Sha) (pinned, repaired string) {
+	return c11ProposeKeyL(c, q, ho, vo, tab, false), c11ProposeKeyL(c, q, ho, vo, tab, true)
+}
+
+// forwardedHash of fixes/C11-F6.diff
+func c11FwdHash(names []string, vals []c11KV, tab *c11Sha) string {
+	var sb strings.Builder
+
+	for _, n := range names {
+		v, _ := c11Lookup(vals, n)
+		sb.WriteString(n)
+		sb.WriteString(v)
+	}
+
+	return tab.sum(sb.String())
+}
+
+func c11ProposeKeyL(c c11Conf, q c11Req, ho, vo []string, tab *c11Sha, fx6 bool) string {
 	var ep strings.Builder
 
 	ep.WriteString(c.Ep.URL.text())
@@ -1140,6 +1158,15 @@ func c11ProposeKey(c c11Conf, q c11Req, ho, vo []string, tab *c11Sha) string {
 
 		v := c.ttlVal()
 		pre.WriteString(c11TTLHash(&v))
+
+		if fx6 {
+			pre.WriteString(c11FwdHash(c.FwdH, q.Headers, tab))
+			pre.WriteString(c11FwdHash(c.FwdC, q.Cookies, tab))
+
+			if c.HasPayload {
+				pre.WriteString(tab.sum(c.Payload.text()))
+			}
+		}
 	default:
 		var vals []c11KV
 		for _, v := range c.Values {
@@ -1170,6 +1197,11 @@ func c11ProposeKey(c c11Conf, q c11Req, ho, vo []string, tab *c11Sha) string {
 				pre.WriteString(v)
 			}
 		}
+
+		if fx6 && c.Kind == "ctx" {
+			pre.WriteString(c11FwdHash(c.FwdH, q.Headers, tab))
+			pre.WriteString(c11FwdHash(c.FwdC, q.Cookies, tab))
+		}
 	}
 
 	return hex.EncodeToString([]byte(tab.sum(pre.String())))
@@ -1198,7 +1230,7 @@ func c11Explain(c c11Conf, q c11Req, observed string, tab *c11Sha) (ho, vo []str
 
 	for _, hp := range c11Permutations(hn) {
 		for _, vp := range c11Permutations(vn) {
-			if c11ProposeKey(c, q, hp, vp, nil) == observed {
+			if k0, k6 := c11ProposeKey(c, q, hp, vp, nil); k0 == observed || k6 == observed {
 				c11ProposeKey(c, q, hp, vp, tab)
 
 				return hp, vp, true
